@@ -698,7 +698,9 @@ func (c *Channel) processInFlightQueue(t int64) bool {
 
 		_, err := c.popInFlightMessage(msg.clientID, msg.ID)
 		if err != nil {
-			goto exit
+			// a stale queue entry (its message was finished, emptied or registered
+			// again meanwhile): drop it and go on with the round
+			continue
 		}
 		if msg.pri > t {
 			// touched (or requeued and delivered again) since the look at the
